@@ -147,6 +147,23 @@ def run_instance(inst, U, lattice):
         return {"error": type(ex).__name__, "n": len(labels), "instance": {"labels": [list(x) for x in labels], "opts": inst["opts"]}}
     rec = project(f, nodes, labels, inst["opts"], U, lattice)
     rec["fresh"] = 1
+    rec["hasmetrics"] = 0
+    if lattice and rec["U"] == 4 and f.getLayers() is not None:
+        try:
+            from labella import metrics as M
+            from fractions import Fraction as F
+            ly = f.getLayers()
+            o = f.options
+            buf = F(o["nodeSpacing"])
+            nl = sum(1 for l in ly for x in l if not x.isStub())
+            rec["metrics"] = {
+                "wa": int(M.weightedAllocation(ly)), "was": q(M.weightedAllocatedSpace(ly), U, True),
+                "over2": q(F(M.overflowSpace(ly, o.get("minPos"), o.get("maxPos"))) * 2, U, True),
+                "oc0": int(M.overlapCount(ly, 0)), "ocbuf": int(M.overlapCount(ly, float(buf))), "buf": q(buf, U, True),
+                "dispnum": q(F(M.displacement(ly)) * nl, U, False), "dispden": nl}
+            rec["hasmetrics"] = 1
+        except Exception:
+            rec["hasmetrics"] = 0
     return rec
 
 
